@@ -123,7 +123,9 @@ func Attribute(tr *Trace, v *Violation) []string {
 		}
 		for _, f := range v.Facts {
 			if strings.HasPrefix(f, "underlying:") {
-				// a mismatch found right after a rejected call keeps the blame of the rejected call's property
+				// a mismatch found right after a rejected call (or in a twin world) is blamed on the rejected call's
+				// property, and it still is the mismatch it is: the state contradicts that class's properties too
+				out = append(out, classProps[strings.TrimPrefix(f, "underlying:")]...)
 			}
 		}
 		return uniq(out)
@@ -268,6 +270,11 @@ func DirectlyAttributed(v *Violation, prop string) bool {
 	}
 	for _, a := range v.Also {
 		if contains(classProps[a], prop) {
+			return true
+		}
+	}
+	for _, f := range v.Facts {
+		if strings.HasPrefix(f, "underlying:") && contains(classProps[strings.TrimPrefix(f, "underlying:")], prop) {
 			return true
 		}
 	}
